@@ -170,6 +170,63 @@ def _job(items):
     return out
 
 
+# ------------------------------------------------------------------ another writer between two calls of one operation
+
+class _Between:
+    """stands between the cache wrapper and the store it wraps: before the n-th call that the wrapper makes, another
+    process stores a blob into the same directories"""
+
+    def __init__(self, inner, at, event):
+        self._inner, self._at, self._event, self.n = inner, at, event, 0
+
+    def __getattr__(self, name):
+        real = getattr(self._inner, name)
+        if not callable(real) or name.startswith("_"):
+            return real
+
+        def w(*a, **k):
+            if self.n == self._at:
+                self.n += 1
+                self._event()
+            else:
+                self.n += 1
+            return real(*a, **k)
+        return w
+
+
+def check_between(cap, opname, value):
+    """the key is absent; one wrapper operation on it; at every boundary between the calls it makes to the wrapped store another
+    process stores the blob. Afterwards the wrapper answers like the bare store."""
+    probs, n = [], 0
+    for at in range(0, 4):
+        s = build("local", cap)
+        try:
+            k = H["k1"]
+            v = None if value == "none" else Obj("late")
+            fired = []
+
+            def event():
+                fired.append(1)
+                for tag in ("bare", "wrap"):
+                    _mk_store("local", s.root, tag, None).store_blob(k, v, None)
+            inner = s.wrapped._store
+            s.wrapped._store = _Between(inner, at, event)
+            call(lambda: getattr(s.wrapped, opname)(k))
+            s.wrapped._store = inner
+            if not fired:
+                break
+            n += 1
+            for q in ("has_blob", "fetch_blob"):
+                rb, rw = _norm(call(lambda: getattr(s.bare, q)(k))), _norm(call(lambda: getattr(s.wrapped, q)(k)))
+                if rb != rw:
+                    probs.append((f"C12|between_calls|{opname}|stored={value}|{q}|wrapped={_short(rw)}|bare={_short(rb)}",
+                                  f"[cap={cap}] another process stores the (so far absent) blob before call {at} that {opname} makes to the wrapped store; "
+                                  f"afterwards {q}: wrapped {rw!r}, bare {rb!r}", {"mode": "between", "cap": cap, "op": opname, "value": value}))
+        finally:
+            teardown(s)
+    return probs, n
+
+
 # ------------------------------------------------------------------ option decoding
 
 def check_option(c):
@@ -232,11 +289,19 @@ def run(tier, seed):
     for c in OPTIONS:
         for k, what in check_option(c):
             res.violations.append(Violation(P, k, what, {"mode": "option", "c": c}))
+    n_between = 0
+    for cap in (1, 10):
+        for opname in ("fetch_blob", "has_blob"):
+            for value in ("obj", "none"):
+                pr, nb = check_between(cap, opname, value)
+                n_between += nb
+                for k, what, case in pr:
+                    res.violations.append(Violation(P, k, what, case))
     res.violations.sort(key=lambda v: len(v.replay.get("ops", [])))
     res.coverage = dict(
         states=states, transitions=trans, traces_validated_against_impl=trans,
         exhaustive=all(p["closed"] for p in per if p["kind"] == "memory"),
-        per_config=per, option_values=[repr(c) for c in OPTIONS],
+        per_config=per, option_values=[repr(c) for c in OPTIONS], between_call_points=n_between,
         rule="BFS over 19 store operations on 6 keys (present, absent, stored-later, None-valued, later-None, present2) and 2 paths; "
              "state = canonical object graph of wrapped+bare store (+ directory tree for local); closed=true means the reachable "
              "state space was exhausted, otherwise explored to the stated depth",
@@ -251,6 +316,9 @@ def replay(case):
     core.ensure_repo_dds()
     if case["mode"] == "option":
         return [Violation(P, k, w, case) for k, w in check_option(case["c"])]
+    if case["mode"] == "between":
+        time.time = lambda: 1.6e9
+        return [Violation(P, k, w, c) for k, w, c in check_between(case["cap"], case["op"], case["value"])[0]]
     time.time = lambda: 1.6e9
     s = build(case["kind"], case["cap"])
     try:
